@@ -448,8 +448,18 @@ def representation_switch(index: RepoIndex, rep, rule: str) -> None:
                           f'self.outer_env.{rattr} is None', f'{new_repr} is None')]
         r2 = [e for e in r2 if e not in none_paths]
         v2 = r2[0].value if len(r2) == 1 else None
+
+        def evaluated_at(e: ast.AST, at: int, depth: int = 6) -> int:
+            """when the expression was evaluated: a local names the value it was given at its
+            own assignment, which can be earlier than the store that uses it"""
+            for n_ in ast.walk(e):
+                if isinstance(n_, ast.Name) and depth > 0:
+                    d_ = w.single_def(n_.id)
+                    if d_ is not None and d_[0] == 'value':
+                        at = min(at, evaluated_at(d_[1], d_[2], depth - 1))
+            return at
         ok2 = v2 is not None and bool(r1) and (
-            (r2[0].order > r1[0].order and
+            (evaluated_at(v2, r2[0].order) > r1[0].order and
              src(w.expand(v2)) == f'outer_space_to_gym_space(self.outer_env.{rattr}.space)')
             or src(w.expand(v2)) == f'outer_space_to_gym_space({new_repr}.space)')
         rep.check(bool(ok2), rule, GYM, f'GymEnvironment.{meth}', m.node.lineno,
